@@ -211,6 +211,21 @@ fn run(ctx: &RunCtx) -> Report {
         3 => krpc::immutable_target(&value),
         _ => target,
     };
+    // some peers already hold data for the target: their answers carry values AND closer nodes
+    if rng.chance(2, 3) {
+        for i in 0..n {
+            if rng.chance(1, 3) {
+                let v = value.clone();
+                rawnet.with_peer(i, |p| {
+                    p.peers.insert(lookup_target, vec![SocketAddrV4::new(priv_ip(50_000 + i), 1)]);
+                    if kind == 3 {
+                        p.immutable.insert(lookup_target, v);
+                    }
+                });
+            }
+        }
+        report.probe("lookups_with_value_holders", 1);
+    }
     let t0 = sim.now();
     let op = match kind {
         0 => sim.find_node(node, lookup_target),
